@@ -181,19 +181,23 @@ def _generic_candidates(case):
             yield cand
 
 
-def minimize(case, still_fails, candidates=None, max_checks=2500):
+def minimize(case, still_fails, candidates=None, max_checks=2500,
+             max_seconds=90.0):
     """Greedy delta debugging: take the first candidate (a strictly smaller
-    case) that still fails with the same signature, restart from it."""
+    case) that still fails with the same signature, restart from it.  Bounded
+    by a number of checks and by wall-clock time (a budget hit only means a
+    less minimal replay)."""
     if candidates is None:
         candidates = _generic_candidates
     budget = max_checks
+    deadline = time.time() + max_seconds
     progress = True
-    while progress and budget > 0:
+    while progress and budget > 0 and time.time() < deadline:
         progress = False
         try:
             cands = candidates(case)
             for cand in cands:
-                if budget <= 0:
+                if budget <= 0 or time.time() > deadline:
                     break
                 budget -= 1
                 try:
@@ -403,7 +407,9 @@ class Ctx:
             return False
 
         try:
-            case = minimize(case, still_fails, shrinker)
+            case = minimize(case, still_fails, shrinker,
+                            max_seconds=60.0 if self.tier == "quick"
+                            else 300.0)
         finally:
             (self.evaluations, self.classes, self.nontrivial, self.samples,
              self.excluded) = saved
